@@ -44,7 +44,10 @@ def scaled_cond(jac):
 
 
 def as_arrays(cloud, shape):
-    es, ns = gen.cloud_xy(cloud)
+    if "xy" in cloud:  # explicit coordinates (canaries and regression replays must not depend on the generator's jitter tables)
+        es, ns = cloud["xy"]
+    else:
+        es, ns = gen.cloud_xy(cloud)
     return np.array(es).reshape(shape), np.array(ns).reshape(shape)
 
 
